@@ -903,3 +903,47 @@ Proof.
   split; [intros w a r H; unfold jwe_select; rewrite H; reflexivity|].
   split; [eexists; vm_compute; reflexivity | vm_compute; reflexivity].
 Qed.
+
+(* ---------- after register_ecdh_1pu(); register_chaha20_poly1305() ---------- *)
+(* the draft algorithms are registered but not recommended: with no list the usable
+   names are still exactly the literals of the property text *)
+Lemma default_sets_drafts :
+  (forall n, (exists m, jws_get_alg w0_drafts (jws_select w0_drafts PNone None) (PStr n) = Ok m) <-> In n (map nm jws_lit)) /\
+  (forall n, (exists m, jwe_get_alg w0_drafts (jwe_select w0_drafts PNone None) (PStr n) = Ok m) <-> In n (map nm jwe_alg_lit)) /\
+  (forall n, (exists m, jwe_get_enc w0_drafts (jwe_select w0_drafts PNone None) (PStr n) = Ok m) <-> In n (map nm jwe_enc_lit)) /\
+  (forall n, (exists m, jwe_get_zip w0_drafts (jwe_select w0_drafts PNone None) (PStr n) = Ok m) <-> In n (map nm jwe_zip_lit)) /\
+  w_jws_def w0_drafts = PNone /\ w_jwe_def w0_drafts = PNone /\ jws_default_allowed_drafts = None.
+Proof.
+  assert (S1 : jws_select w0_drafts PNone None = PNone) by (vm_compute; reflexivity).
+  assert (S2 : jwe_select w0_drafts PNone None = PNone) by (vm_compute; reflexivity).
+  rewrite S1, S2.
+  split; [unfold jws_get_alg; apply default_usable; vm_compute; reflexivity|].
+  split; [unfold jwe_get_alg; apply default_usable; vm_compute; reflexivity|].
+  split; [unfold jwe_get_enc; apply default_usable; vm_compute; reflexivity|].
+  split; [unfold jwe_get_zip; apply default_usable; vm_compute; reflexivity|].
+  vm_compute. repeat split; reflexivity.
+Qed.
+
+(* the names the draft modules add (rows of the drafts tables beyond the import-time ones) *)
+Definition draft_alg_names : list string := map ea_name (skipn (length jwe_alg_table) jwe_alg_table_drafts).
+Definition draft_enc_names : list string := map ee_name (skipn (length jwe_enc_table) jwe_enc_table_drafts).
+
+(* every draft alg / enc is refused without a list (default registry, bare registry,
+   empty list) and accepted when an explicit list names it; the sets are not empty *)
+Lemma drafts_only_explicit :
+  forallb (fun n => match jwe_get_alg w0_drafts PNone (pname n), jwe_get_alg w0_drafts (PList []) (pname n),
+                          jwe_get_alg w0_drafts (w_jwe_def w0_drafts) (pname n),
+                          jwe_get_alg w0_drafts (PList [pname n]) (pname n) with
+                    | Err (EJose UnsupportedAlgorithmError), Err (EJose UnsupportedAlgorithmError),
+                      Err (EJose UnsupportedAlgorithmError), Ok _ => true
+                    | _, _, _, _ => false end) draft_alg_names = true /\
+  forallb (fun n => match jwe_get_enc w0_drafts PNone (pname n), jwe_get_enc w0_drafts (PList []) (pname n),
+                          jwe_get_enc w0_drafts (w_jwe_def w0_drafts) (pname n),
+                          jwe_get_enc w0_drafts (PList [pname n]) (pname n) with
+                    | Err (EJose UnsupportedAlgorithmError), Err (EJose UnsupportedAlgorithmError),
+                      Err (EJose UnsupportedAlgorithmError), Ok _ => true
+                    | _, _, _, _ => false end) draft_enc_names = true /\
+  draft_alg_names <> [] /\ draft_enc_names <> [] /\
+  skipn (length jws_alg_table) jws_alg_table_drafts = [] /\
+  skipn (length jwe_zip_table) jwe_zip_table_drafts = [].
+Proof. vm_compute. repeat split; try reflexivity; discriminate. Qed.
